@@ -123,15 +123,9 @@ def check_range_gate(ctx, fb):
         if len(oks) == 1:
             cm = cond_map(oks[0])
             eqlen = any(a[0] == "b" and a[1][0] == "bin" and a[1][1] in ("Ne", "Eq") and set(a[1][2:]) == {("len", P(1)), ("len", P(2))} and ((a[1][1] == "Ne") == (v is False)) for a, v in cm.items())
-            anyc = [a for a, v in cm.items() if a[0] == "b" and a[1][0] == "call" and a[1][1].endswith("Iterator>::any") or (a[0] == "b" and "any" in sh(a, 300)) and v is False]
-            good = eqlen and bool(anyc)
-            why = "conditions: %s" % [(sh(a, 100), v) for a, v in cm.items()]
-            cl = fb.closures_of(sc.path)
-            if good and cl:
-                e4 = Engine(fb, inline=lambda i: False)
-                vals = [e4.value_of(p.store, p.ret) for p in ret_paths(e4.run(cl[0]))]
-                good = len(vals) == 1 and vals[0][0] == "bin" and vals[0][1] == "Gt" and cint(vals[0][3]) == 1
-                why = "direction predicate is %s, specification `> 1`" % [sh(v, 80) for v in vals]
+            fa = [(seq, allowed) for seq, allowed, _ in forall_u8(fb, list(cm.items())) if seq == P(2)]
+            good = eqlen and len(fa) == 1 and fa[0][1] == {0, 1}
+            why = "conditions: %s; direction values accepted: %s, specification {0, 1}" % ([(sh(a, 100), v) for a, v in cm.items()], [sorted(x[1])[:6] for x in fa])
         ctx.check(good, "R12-2", "merkle_path_shape_check condition", "Ok exactly when lengths are equal and no direction value exceeds 1", why, loc(sc))
 
 
